@@ -20,7 +20,7 @@ PROPS = {
                 "1 in 20 leaves compare anything with anything); 1..3 assignments per rule (arithmetic, string concatenation, literals, field copies; targets: existing fields, new fields under existing objects, new "
                 "top-level names, paths under absent objects); plus feeding chains (a quarter as many cases): lower-salience rules write, flat or nested, the very field a higher-salience rule tests, so that a rule is false when first "
                 "considered and true in a later pass. Every case also runs through plain `execute` on a fresh engine (result and final facts). Observed: the parsed Rule structures, every firing with the complete fact store after it (callback of execute_with_callback), cycle / evaluated / fired counters "
-                "or the error. non-trivial = at least one firing String literals containing comparison operators (x>=y, a==b, <, p != q) occur in the odd-string pool; the witness of known finding C01-comparison-operator-in-string-of-arithmetic-condition (monitor class 3) is in the corpus.",
+                "or the error. non-trivial = at least one firing String literals containing comparison operators (x>=y, a==b, <, p != q) occur in the odd-string pool; the witness of the repaired defect (operator inside a string literal of an arithmetic condition) is in the corpus.",
         "level_text": "Theorems (Coq, every rule set / fact store / text): (1) evaluate_expression applied to the printed text of ANY well-formed tree applies each operator to the values of exactly its two sub-trees "
                 "(precedence, left associativity, parentheses, negative and string literals recovered from the string by the rightmost-operator split with byte offsets); (2) the operator table: wherever the documented "
                 "comparison is defined, Operator::evaluate returns it; (3) condition evaluation never panics and always yields a boolean; (4) one consideration: whenever the documented meaning of the when-expression and "
